@@ -103,10 +103,26 @@ type source struct {
 	lastSeen    uint32
 	lastBacklog []ev
 	lookups     int
+
+	// regstop "aligned" mode, see Notifications()
+	armAck   bool // the next lookup arms afterAck
+	afterAck atomic.Bool
+	ackSeen  atomic.Bool
+	ackHold  time.Duration
 }
 
 func (s *source) Notifications() <-chan blockntfns.BlockNtfn {
 	s.calls.Add(1)
+	if s.afterAck.Load() {
+		// The handler goroutine calls this when it re-enters its select, i.e.
+		// right after it has acknowledged the registration whose lookup armed
+		// the hook: release whoever waits for that moment and keep the handler
+		// here (spinning, not yielding its P) for a moment.
+		s.afterAck.Store(false)
+		s.ackSeen.Store(true)
+		for t0 := time.Now(); time.Since(t0) < s.ackHold; {
+		}
+	}
 	return s.ch
 }
 
@@ -122,6 +138,10 @@ func (s *source) NotificationsSinceHeight(h uint32) ([]blockntfns.BlockNtfn, uin
 	s.lastBacklog = bl
 	gate, parked := s.gate, s.parked
 	s.gate, s.parked = nil, nil
+	if s.armAck {
+		s.armAck = false
+		s.afterAck.Store(true)
+	}
 	s.mu.Unlock()
 	if gate != nil {
 		close(parked)
@@ -167,6 +187,7 @@ type subscriber struct {
 	sawEnd  bool
 	done    chan struct{}
 	cancelN int
+	cancelSent bool
 }
 
 type world struct {
@@ -841,6 +862,13 @@ func (w *world) finish(firstStalls bool) {
 	if w.stalled {
 		stalledCases++
 		o.hit("case.stalled")
+		// is the handler goroutine still serving?  (a handler stuck inside a
+		// cancel() starves every subscriber: the emit is never taken => HANG)
+		if !w.stopped && w.win == nil {
+			w.stalled = false
+			w.emit(w.fresh(true, w.tip+1), true)
+			w.stalled = true
+		}
 		for _, s := range w.liveSubs() {
 			if !s.ended && s.pending > 0 {
 				w.read(s, s.pending)
@@ -862,12 +890,12 @@ var stalledCases int
 // deterministic probes: fixed scenarios, run first on every run
 
 var probeNames = []string{"window-basic", "window-many", "window-empty-backlog", "window-reorg",
-	"window-two", "stall-beyond-buffers", "cancel-during-backlog", "stop-pending"}
+	"window-two", "stall-beyond-buffers", "cancel-during-backlog", "stop-pending", "slow-then-cancel"}
 
 func probeCase(o *out, idx int) {
 	name := probeNames[idx]
 	tip := map[string]uint32{"window-basic": 5, "window-many": 30, "window-empty-backlog": 4, "window-reorg": 6,
-		"window-two": 9, "stall-beyond-buffers": 0, "cancel-during-backlog": 50, "stop-pending": 3}[name]
+		"window-two": 9, "stall-beyond-buffers": 0, "cancel-during-backlog": 50, "stop-pending": 3, "slow-then-cancel": 0}[name]
 	o.line("case %d det probe-%s tip %d", idx, name, tip)
 	o.hit("probe." + name)
 	w := newWorld(o, tip, true)
@@ -970,6 +998,21 @@ func probeCase(o *out, idx int) {
 			w.cancel(s1)
 			conn(2)
 		}
+	case "slow-then-cancel":
+		// subscriber 1 is more than a channel behind and cancels; the bystander
+		// (subscriber 2) must keep receiving and 1's channel must get closed
+		s1 := w.subscribe(0, false)
+		s2 := w.subscribe(0, false)
+		conn(30)
+		if !w.stalled {
+			w.read(s2, 30)
+			w.cancel(s1)
+		}
+		conn(3)
+		if !w.stalled {
+			w.read(s2, 3)
+			w.read(s1, 25) // the 20 that were in its channel, then closed
+		}
 	case "stop-pending":
 		w.subscribe(1, false)
 		w.subscribe(0, false)
@@ -1028,7 +1071,10 @@ func freeCase(o *out, idx int, r *rand.Rand, thorough bool) {
 		if s.s == nil {
 			return
 		}
-		s.role = []string{"fast", "fast", "slow", "never", "cancelafter", "cancelrace"}[r.Intn(6)]
+		s.role = []string{"fast", "fast", "slow", "never", "cancelafter", "cancelrace", "stallcancel"}[r.Intn(7)]
+		if len(w.subs) == 1 {
+			s.role = "fast" // there is always a healthy bystander
+		}
 		s.done = make(chan struct{})
 		sr := rand.New(rand.NewSource(r.Int63()))
 		switch s.role {
@@ -1042,6 +1088,12 @@ func freeCase(o *out, idx int, r *rand.Rand, thorough bool) {
 			s.cancelN = 1 + r.Intn(30)
 			o.op(fmt.Sprintf("role %d cancelafter", s.id), "-")
 			go s.consume(w, r.Intn(2) == 0, sr)
+		case "stallcancel":
+			// never reads; cancels (from its own goroutine, while the source keeps
+			// emitting) once it is more than a channel's worth behind
+			o.op(fmt.Sprintf("role %d stallcancel", s.id), "-")
+			s.cancelN = 21 + r.Intn(40)
+			close(s.done)
 		case "cancelrace":
 			o.op(fmt.Sprintf("role %d cancelrace", s.id), "-")
 			go s.consume(w, r.Intn(2) == 0, sr)
@@ -1076,6 +1128,17 @@ func freeCase(o *out, idx int, r *rand.Rand, thorough bool) {
 			addSub()
 		}
 		w.emit(w.nextEv(r), false)
+		for _, s := range w.liveSubs() {
+			if s.role == "stallcancel" && !s.cancelSent && s.pending >= s.cancelN {
+				s.cancelSent = true
+				o.hit("stallcancel.cancel")
+				cancellers.Add(1)
+				go func(s *subscriber) {
+					defer cancellers.Done()
+					s.s.Cancel()
+				}(s)
+			}
+		}
 		if r.Intn(40) == 0 {
 			settle()
 		}
@@ -1099,7 +1162,7 @@ func freeCase(o *out, idx int, r *rand.Rand, thorough bool) {
 		case <-time.After(opTimeout):
 			// the consumer is still blocked: the channel was never closed
 		}
-		if s.role == "never" {
+		if s.role == "never" || s.role == "stallcancel" {
 			for {
 				it, ok, closed := recvOne(s.s.Notifications, 50*time.Millisecond)
 				if ok {
@@ -1185,6 +1248,197 @@ func stopRaceCase(o *out, idx int, r *rand.Rand) {
 	}
 }
 
+// regStopCase: NewSubscription (start height below the tip, so it carries a
+// backlog) races Stop on a fresh manager.  Whatever the outcome (registered or
+// ErrSubscriptionManagerStopped) nothing may panic (a send on the channel that
+// Stop has closed, a second close), both calls return, and a registered
+// subscriber's channel is closed and holds a prefix of its backlog.  Two out of
+// Stop is
+// released together with the call, from inside the backlog lookup, or is called
+// by a goroutine the handler creates inside the lookup (the registration is then
+// in flight and Stop's cancel of the new client falls right behind the handler's
+// acknowledgement); one case in four runs on one P.  A panic in a
+// goroutine of the package kills this child process: the parent reports it as
+// `status => PANIC ...` of this case.
+func regStopCase(o *out, idx int, r *rand.Rand) {
+	procs := 0
+	if r.Intn(4) == 0 {
+		procs = 1
+	}
+	// mostly short backlogs; sometimes one far longer than all buffers
+	tip := uint32(3 + r.Intn(30))
+	if r.Intn(5) == 0 {
+		tip = uint32(40 + r.Intn(260))
+	}
+	o.line("case %d regstop tip %d procs %d", idx, tip, procs)
+	baseline := runtime.NumGoroutine()
+	if procs == 1 {
+		defer runtime.GOMAXPROCS(runtime.GOMAXPROCS(1))
+	}
+	w := newWorld(o, tip, false)
+	var by *subscriber
+	if r.Intn(3) == 0 {
+		by = w.subscribe(uint32(r.Intn(int(tip))), false)
+		o.op(fmt.Sprintf("role %d never", by.id), "-")
+	}
+	id := len(w.subs) + 1
+	h := 1 + uint32(r.Intn(int(tip)-1))
+	if tip >= 40 && r.Intn(2) == 0 {
+		h = 1 + uint32(r.Intn(10))
+	}
+	o.op(fmt.Sprintf("racesubstop %d %d", id, h), "started")
+	o.hit("regstop")
+	// when Stop is released: together with the NewSubscription call, or from
+	// inside the backlog lookup (the registration is then in flight in the
+	// handler, and Stop's cancel of the new client falls right behind the
+	// handler's acknowledgement)
+	start := make(chan struct{})
+	subDone, stopDone := make(chan struct{}), make(chan struct{})
+	j1, j2 := r.Intn(6), r.Intn(8)
+	doStop := func() {
+		defer close(stopDone)
+		w.m.Stop()
+	}
+	mode := []string{"aligned", "aligned", "aligned", "spawn-in-lookup", "release-in-lookup", "independent"}[r.Intn(6)]
+	if procs == 1 && mode == "aligned" {
+		mode = "spawn-in-lookup" // the aligned mode needs a P of its own for the spinning Stop caller
+	}
+	o.hit("regstop." + mode)
+	lookup := w.backlogFrom
+	var once sync.Once
+	switch mode {
+	case "aligned":
+		// Stop is called at the moment the handler, having acknowledged the
+		// registration, re-enters its select (it passes through the source's
+		// Notifications() there): the caller of NewSubscription has been made
+		// runnable by the acknowledgement but has not necessarily run yet.
+		w.src.mu.Lock()
+		w.src.armAck, w.src.ackHold = true, time.Duration(500+r.Intn(4000))*time.Nanosecond
+		w.src.mu.Unlock()
+		w.src.ackSeen.Store(false)
+		go func() {
+			for t0 := time.Now(); !w.src.ackSeen.Load() && time.Since(t0) < 100*time.Millisecond; {
+			}
+			doStop()
+		}()
+	case "spawn-in-lookup":
+		// Stop is called by a goroutine created by the handler goroutine while
+		// it is inside the lookup
+		lookup = func(h uint32) []ev {
+			once.Do(func() { go doStop() })
+			return w.backlogFrom(h)
+		}
+	case "release-in-lookup":
+		trigger := make(chan struct{})
+		lookup = func(h uint32) []ev {
+			bl := w.backlogFrom(h)
+			once.Do(func() { close(trigger) })
+			return bl
+		}
+		go func() {
+			select {
+			case <-trigger:
+			case <-subDone:
+			}
+			for i := 0; i < j2; i++ {
+				runtime.Gosched()
+			}
+			doStop()
+		}()
+	default:
+		go func() {
+			<-start
+			for i := 0; i < j2; i++ {
+				runtime.Gosched()
+			}
+			doStop()
+		}()
+	}
+	w.src.mu.Lock()
+	w.src.lookup, w.src.fail, w.src.lastSeen, w.src.lastBacklog = lookup, false, 1<<31, nil
+	w.src.mu.Unlock()
+	var sub *blockntfns.Subscription
+	var err error
+	go func() {
+		defer close(subDone)
+		<-start
+		for i := 0; i < j1; i++ {
+			runtime.Gosched()
+		}
+		sub, err = w.m.NewSubscription(h)
+		// the lookup was never reached (Stop won before the handler got the request)
+		once.Do(func() {
+			if mode == "spawn-in-lookup" {
+				go doStop()
+			}
+			w.src.ackSeen.Store(true)
+		})
+	}()
+	close(start)
+	wait := func(c chan struct{}) bool {
+		select {
+		case <-c:
+			return true
+		case <-time.After(opTimeout):
+			return false
+		}
+	}
+	okSub, okStop := wait(subDone), wait(stopDone)
+	w.stopped = true
+	w.src.mu.Lock()
+	seen, bl := w.src.lastSeen, w.src.lastBacklog
+	w.src.mu.Unlock()
+	opText := fmt.Sprintf("sub %d %d %s", id, h, evList(bl))
+	switch {
+	case !okSub:
+		o.op(opText, "HANG")
+	case err == blockntfns.ErrSubscriptionManagerStopped:
+		o.op(opText, "stopped")
+		o.hit("regstop.stopped")
+	case err != nil:
+		o.op(opText, "err")
+	default:
+		o.op(opText, fmt.Sprintf("ok %d", seen))
+		o.hit("regstop.registered")
+	}
+	if okStop {
+		o.op("stop", "ok")
+	} else {
+		o.op("stop", "HANG")
+	}
+	drain := func(s *subscriber) {
+		var got []string
+		tail := "open"
+		for {
+			it, ok, closed := recvOne(s.s.Notifications, 50*time.Millisecond)
+			if ok {
+				got = append(got, it)
+				continue
+			}
+			if closed {
+				tail = "closed"
+			}
+			break
+		}
+		o.op(fmt.Sprintf("recv %d", s.id), "["+strings.Join(got, " ")+"] "+tail)
+	}
+	if by != nil && by.s != nil {
+		drain(by)
+	}
+	if okSub && err == nil && sub != nil {
+		drain(&subscriber{id: id, s: sub})
+	}
+	// Both calls have returned: every goroutine of the manager (handler, queues,
+	// delivery goroutines) must be gone or on its way out.  Wait for that, so
+	// that one that is still to act on a closed channel does it inside this case.
+	for t0 := time.Now(); runtime.NumGoroutine() > baseline && time.Since(t0) < 20*time.Millisecond; {
+		runtime.Gosched()
+	}
+	if n := runtime.NumGoroutine(); n > baseline {
+		o.hit("regstop.goroutines-left")
+	}
+}
+
 // ---------------------------------------------------------------------------
 // child: runs cases [SUBS_FROM, SUBS_TO), writing unbuffered to SUBS_OUT
 
@@ -1202,8 +1456,10 @@ func child(_ *tr.W, thorough bool) {
 	o := &out{f: f}
 	for idx := from; idx < to; idx++ {
 		r := caseRng(idx)
-		if idx >= tr.EnvInt("SUBS_N", 1<<30) {
+		if idx >= tr.EnvInt("SUBS_N", 1<<30)+tr.EnvInt("SUBS_RS", 0) {
 			stopRaceCase(o, idx, r)
+		} else if idx >= tr.EnvInt("SUBS_N", 1<<30) {
+			regStopCase(o, idx, r)
 		} else if idx < len(probeNames) {
 			probeCase(o, idx)
 		} else if idx%3 == 2 {
@@ -1236,6 +1492,9 @@ func parent(t *tr.W, thorough bool) {
 		n, thorough = 450*3, false
 	}
 	regular := n
+	// registration || Stop races: cheap (tens of microseconds each), many
+	regStop := tr.EnvInt("SUBS_REGSTOP", 4*regular)
+	n += regStop
 	n += tr.EnvInt("SUBS_STOPRACE", 0)
 	dir, err := os.MkdirTemp("", "subsdrv")
 	if err != nil {
@@ -1246,7 +1505,7 @@ func parent(t *tr.W, thorough bool) {
 	for from := 0; from < n; {
 		outPath := fmt.Sprintf("%s/child-%d.trace", dir, from)
 		cmd := exec.Command(os.Args[0], "subschild", outPath+".unused")
-		cmd.Env = append(os.Environ(), "SUBS_FROM="+strconv.Itoa(from), "SUBS_TO="+strconv.Itoa(n), "SUBS_OUT="+outPath, "SUBS_N="+strconv.Itoa(regular))
+		cmd.Env = append(os.Environ(), "SUBS_FROM="+strconv.Itoa(from), "SUBS_TO="+strconv.Itoa(n), "SUBS_OUT="+outPath, "SUBS_N="+strconv.Itoa(regular), "SUBS_RS="+strconv.Itoa(regStop))
 		if search {
 			cmd.Env = append(cmd.Env, "VERIF_TIER=quick")
 		}
